@@ -148,3 +148,112 @@ func ZZCoordinatorRestart(n, keep, fresh int) {
 	}
 	vReach("end")
 }
+
+// zzCheckAssignments: what the coordinator tells servers and clients (computeNewAssignments) agrees with the
+// persisted status: per namespace exactly the shards that are not being deleted, each with its own id, hash
+// range and leader, and the ranges of a namespace partition the 32-bit hash space.
+func zzCheckAssignments(c *coordinator, st *model.ClusterStatus, tag string) {
+	for name, ns := range st.Namespaces {
+		as, ok := c.assignments.Namespaces[name]
+		vAssert(tag+":namespace-has-assignments", ok)
+		if !ok {
+			continue
+		}
+		live := 0
+		covered := uint64(0)
+		for id, sm := range ns.Shards {
+			if sm.Status == model.ShardStatusDeleting {
+				continue
+			}
+			live++
+			n := 0
+			for _, a := range as.Assignments {
+				if a.Shard == id {
+					n++
+					r := a.GetInt32HashRange()
+					vAssert(tag+":assignment-carries-the-shards-own-range", r != nil && r.MinHashInclusive == sm.Int32HashRange.Min && r.MaxHashInclusive == sm.Int32HashRange.Max)
+					want := ""
+					if sm.Leader != nil {
+						want = sm.Leader.Public
+					}
+					vAssert(tag+":assignment-names-the-shards-leader", a.Leader == want)
+				}
+			}
+			vAssert(tag+":shard-assigned-exactly-once", n == 1)
+			covered += uint64(sm.Int32HashRange.Max) - uint64(sm.Int32HashRange.Min) + 1
+		}
+		vAssert(tag+":no-assignment-for-deleted-or-unknown-shards", len(as.Assignments) == live)
+		if live > 0 {
+			vAssert(tag+":live-ranges-cover-the-hash-space-once", covered == 1<<32)
+		}
+	}
+	vAssert(tag+":no-assignments-for-unknown-namespaces", len(c.assignments.Namespaces) == len(st.Namespaces))
+}
+
+// ZZConfigChange (C18): a running coordinator (real NewCoordinator, real config resource with its watcher
+// goroutine, real status resource over the in-memory metadata store) sees a cluster-config change: variant 0
+// adds namespace "b" with nb shards, 1 removes namespace "a", 2 does both, 3 is a spurious notification (no
+// change). After the real ConfigChanged: the persisted status and the shard assignments agree (ids, ranges,
+// leaders), new shard ids are fresh, the shards of a removed namespace are no longer handed out, the shards
+// of surviving namespaces keep id and range.
+func ZZConfigChange(variant, nb int) {
+	meta := metadata.NewMetadataProviderMemory()
+	cfg := model.ClusterConfig{Servers: zzServers(3), Namespaces: []model.NamespaceConfig{{Name: "a", InitialShardCount: 2, ReplicationFactor: 1}}}
+	ch := make(chan any, 1)
+	ci, err := NewCoordinator(meta, func() (model.ClusterConfig, error) { return cfg, nil }, ch, zzDownRpc{})
+	vAssert("coordinator-started", err == nil)
+	if err != nil {
+		return
+	}
+	c := ci.(*coordinator)
+	before, _, _ := meta.Get()
+	before = before.Clone()
+	c.Lock()
+	c.computeNewAssignments()
+	zzCheckAssignments(c, before, "initial")
+	c.Unlock()
+	g := before.ShardIdGenerator
+	switch variant {
+	case 0:
+		cfg = model.ClusterConfig{Servers: zzServers(3), Namespaces: []model.NamespaceConfig{{Name: "a", InitialShardCount: 2, ReplicationFactor: 1}, {Name: "b", InitialShardCount: uint32(nb), ReplicationFactor: 1}}}
+	case 1:
+		cfg = model.ClusterConfig{Servers: zzServers(3), Namespaces: []model.NamespaceConfig{}}
+	case 2:
+		cfg = model.ClusterConfig{Servers: zzServers(3), Namespaces: []model.NamespaceConfig{{Name: "b", InitialShardCount: uint32(nb), ReplicationFactor: 1}}}
+	}
+	initial := c.assignments
+	ch <- nil // the config watcher reloads and calls ConfigChanged
+	if variant != 3 {
+		_, werr := c.WaitForNextUpdate(context.Background(), initial)
+		vAssert("assignments-updated", werr == nil)
+	} else {
+		vSettle(50)
+		vYield("config-watcher-runs")
+	}
+	c.Lock()
+	after, _, _ := meta.Get()
+	after = after.Clone()
+	zzCheckAssignments(c, after, "after-change")
+	c.Unlock()
+	vAssert("generator-only-grows", after.ShardIdGenerator >= g)
+	if variant == 0 || variant == 2 {
+		nsb, ok := after.Namespaces["b"]
+		vAssert("namespace-added", ok && len(nsb.Shards) == nb && after.ShardIdGenerator == g+int64(nb))
+		for id := range nsb.Shards {
+			vAssert("new-shard-ids-are-fresh", id >= g)
+		}
+	}
+	if variant == 0 || variant == 3 {
+		for id, sm := range before.Namespaces["a"].Shards {
+			am, ok := after.Namespaces["a"].Shards[id]
+			vAssert("surviving-shard-keeps-id-and-range", ok && am.Int32HashRange == sm.Int32HashRange && am.Status != model.ShardStatusDeleting)
+		}
+	}
+	if variant == 1 || variant == 2 {
+		for id := range before.Namespaces["a"].Shards {
+			am, ok := after.Namespaces["a"].Shards[id]
+			vAssert("removed-namespace-shards-are-deleting-or-gone", !ok || am.Status == model.ShardStatusDeleting)
+		}
+	}
+	vReach("end")
+}
